@@ -148,10 +148,10 @@ macro "jeq_simp" : tactic =>
   `(tactic| first
     | simp (disch := omega) only [*, wrapI_eq, jrd_flat2, jrd_flat2', jrd_flat3, jrd_vec, jrd_dyn, rd1_ok, rd2_ok, rd3_ok, chkI_ok, ↓reduceIte,
       not_true_eq_false, not_false_eq_true, bind_ok, bind_error, pure_eq_ok, throw_eq_error, jbind_ok, jbind_error, jpure_eq_ok,
-      jthrow_eq_error, jtry_ok, jtry_iae, jtry_nf, decide_eq_true_eq, deq_real, jdiv_real, ddiv_real, jlog_real, dlog_real, ofInt_le_zero, ofInt_lt_zero, ofInt_le_zero', ofInt_lt_zero', zero_lit, eq_self_iff_true, ne_eq, withErr_empty, isFull_full, isFull_empty, isFull_null, withErr_null, kev_lit, kev_ne, avog_ne, mec2_ne, Bool.false_eq_true, propagateErr_full, setErr_null, setErr_empty, setErr_notFull (by assumption)]
+      jthrow_eq_error, jtry_ok, jtry_iae, jtry_nf, decide_eq_true_eq, deq_real, jdiv_real, ddiv_real, jlog_real, dlog_real, ofInt_le_zero, ofInt_lt_zero, ofInt_le_zero', ofInt_lt_zero', zero_lit, eq_self_iff_true, ne_eq, withErr_empty, isFull_full, isFull_empty, isFull_null, withErr_null, kev_lit, kev_ne, avog_ne, mec2_ne, Bool.false_eq_true, propagateErr_full, setErr_null, setErr_empty, lt_self_iff_false, and_false, false_and, or_false, false_or, and_true, true_and, Int.reduceGT, Int.reduceLT, Int.reduceLE, Int.reduceGE, Int.reduceEq, Int.reduceNe, setErr_notFull (by assumption)]
     | simp (disch := omega) only [*, wrapI_eq, jrd_flat2, jrd_flat2', jrd_flat3, jrd_vec, jrd_dyn, rd1_ok, rd2_ok, rd3_ok, chkI_ok, ↓reduceIte,
       not_true_eq_false, not_false_eq_true, bind_ok, bind_error, pure_eq_ok, throw_eq_error, jbind_ok, jbind_error, jpure_eq_ok,
-      jthrow_eq_error, jtry_ok, jtry_iae, jtry_nf, decide_eq_true_eq, deq_real, jdiv_real, ddiv_real, jlog_real, dlog_real, ofInt_le_zero, ofInt_lt_zero, ofInt_le_zero', ofInt_lt_zero', zero_lit, eq_self_iff_true, ne_eq, withErr_empty, isFull_full, isFull_empty, isFull_null, withErr_null, kev_lit, kev_ne, avog_ne, mec2_ne, Bool.false_eq_true, propagateErr_full, setErr_null, setErr_empty])
+      jthrow_eq_error, jtry_ok, jtry_iae, jtry_nf, decide_eq_true_eq, deq_real, jdiv_real, ddiv_real, jlog_real, dlog_real, ofInt_le_zero, ofInt_lt_zero, ofInt_le_zero', ofInt_lt_zero', zero_lit, eq_self_iff_true, ne_eq, withErr_empty, isFull_full, isFull_empty, isFull_null, withErr_null, kev_lit, kev_ne, avog_ne, mec2_ne, Bool.false_eq_true, propagateErr_full, setErr_null, setErr_empty, lt_self_iff_false, and_false, false_and, or_false, false_or, and_true, true_and, Int.reduceGT, Int.reduceLT, Int.reduceLE, Int.reduceGE, Int.reduceEq, Int.reduceNe])
 
 /-- close a leaf -/
 macro "jeq_leaf" : tactic =>
@@ -260,5 +260,58 @@ macro "jeqw_auto" : tactic =>
     repeat' (first
       | jeqw_leaf
       | (split_ifs <;> (try jeq_simp)))))
+
+/-! ## `f = Jump(...); if (f == 0.0) throw …; rest` : factor the guard out of the continuation -/
+theorem guard_bind {β : Type} (J : JM ℝ) (e : JStop) (k : ℝ → JM β) :
+    (J >>= fun f => if f = 0 then Except.error e else k f) =
+    ((J >>= fun f => if f = 0 then Except.error e else Except.ok f) >>= fun f => if f = 0 then Except.error e else k f) := by
+  cases J with
+  | error x => rfl
+  | ok v =>
+    by_cases h : v = 0
+    · simp only [jbind_ok, h, ↓reduceIte, jbind_error]
+    · simp only [jbind_ok, h, ↓reduceIte]
+theorem guard_ne {J : JM ℝ} {e : JStop} {v : ℝ} (h : (J >>= fun f => if f = 0 then Except.error e else Except.ok f) = Except.ok v) : v ≠ 0 := by
+  cases J with
+  | error x => cases h
+  | ok w =>
+    by_cases hw : w = 0
+    · simp only [jbind_ok, hw, ↓reduceIte] at h; cases h
+    · simp only [jbind_ok, hw, ↓reduceIte] at h; cases h; exact hw
+
+/-! ## automation for the intermediate relation `JRelI` -/
+macro "jeqi_leaf" : tactic =>
+  `(tactic| first
+    | with_reducible exact JRelI.value | with_reducible exact JRelI.fail | with_reducible exact JRelI.fail_e | with_reducible exact JRelI.ub
+    | with_reducible exact JRelI.nf
+    | omega
+    | (simp only [wrapI] at *; omega)
+    | (exfalso; linarith)
+    | (exfalso; exact absurd (le_antisymm (by assumption) (by assumption)) (by assumption)))
+
+macro "jeqi_auto" : tactic =>
+  `(tactic| (
+    (try jeq_simp)
+    repeat' (first
+      | jeqi_leaf
+      | (split_ifs <;> (try jeq_simp)))))
+
+/-- use a callee's `JRelI` fact (or `h.toI` of a `JRel` fact) inside a caller proved in `JRelI` -/
+macro "jeqi_use" h:term : tactic =>
+  `(tactic| (rcases (JRelI.cases $h) with ⟨v, hc, hj⟩ | ⟨e, m, hc, hj⟩ | ⟨a, b, hc, hj⟩ | ⟨a, hc⟩ <;> [skip; (jeqi_auto; done); (jeqi_auto; done); (jeqi_auto; done)]))
+macro "jeqi_use_pos" h:term "," p:term : tactic =>
+  `(tactic| (rcases (JRelI.cases $h) with ⟨v, hc, hj⟩ | ⟨e, m, hc, hj⟩ | ⟨a, b, hc, hj⟩ | ⟨a, hc⟩ <;>
+      [(have hne := JPos.ne $p hj); (jeqi_auto; done); (jeqi_auto; done); (jeqi_auto; done)]))
+
+/-- `X_catch` from a `JRelI` fact at the `NULL` slot -/
+theorem JCatchRel.of_relI {j : JM ℝ} {c : M (ℝ × Slot)} (h : JRelI j c Slot.null) :
+    JCatchRel (jtry (do let r ← j; pure r) (pure (0.0 : ℝ))) c := by
+  rcases h.cases with ⟨v, hc, hj⟩ | ⟨e, m, hc, hj⟩ | ⟨a, b, hc, hj⟩ | ⟨a, hc⟩
+  · subst hc hj; exact ⟨rfl, rfl⟩
+  · subst hc hj; refine ⟨rfl, ?_⟩
+    show Except.ok (0.0 : ℝ) = Except.ok 0
+    norm_num
+  · subst hc hj; exact ⟨b, rfl⟩
+  · subst hc; trivial
 
 end Xrl
